@@ -36,7 +36,7 @@
 From Coq Require Import String List Bool Arith.
 From KV Require Import Lib.Str Lib.StrOps Lib.ODict Gen.Tags Gen.Pipeline Model.Engine Model.EngineSM Model.EngineDomain Spec.RefExpand
                        Model.EngineDomain16 Model.Parse16 Spec.RefExpand16 Lib.TableDef Model.TTable
-                       Proofs.EngineStr Proofs.EnginePipe Proofs.EngineC16 Proofs.EngineRepl Proofs.EngineBlock Proofs.EngineTT Proofs.EngineTps Proofs.EngineTrans Proofs.EngineMsg Proofs.EngineWhole16.
+                       Proofs.EngineStr Proofs.EnginePipe Proofs.EngineC16 Proofs.EngineRepl Proofs.EngineBlock Proofs.EngineTT Proofs.EngineTps Proofs.EngineTrans Proofs.EngineMsg Proofs.EngineEv Proofs.EngineWhole16.
 Import ListNotations.
 Open Scope string_scope.
 Open Scope list_scope.
@@ -157,6 +157,33 @@ Theorem C16_msg_block_is_ref : forall ids items body,
   inner_msgs ids items (map render_line body) None = Some (ref_block (msg_table ids) items body).
 Proof. exact msg_block_is_ref. Qed.
 Print Assumptions C16_msg_block_is_ref.
+
+(* Per-event blocks with <<<SIGNATURE>>> / <<<SIGNATUREWITHDEFAULTS>>> (EvBlock).  The signature strings are an INTERFACE ORACLE (sigs: event name ->
+   get_event_signature(name, False / True), the Language* classes' output; "" for a name the interface has no struct for).  Modelled and proved:
+   the tag logic of innerexpand_secondfiltering (hasSpecificTag SIGNATURE, the DEFAULTS variant chosen by substring, replacement after the name
+   tags) and the cleanup  re.sub("\([^)]*\)", ...)  of the parenthesised groups (EngineSM.paren_clean).  For every oracle, every event list and every
+   body of the grammar admitted for them (ev_block_wf: computed per (template, events, oracle) -- the line after the name tags is taken by the
+   engine's tests for what it is, the signature carries no '<' '>', the result is neither blank nor tagged): the expansion is the reference, i.e. per
+   event the body with the names, the signature in place of the tag and the groups cleaned.  The variant with user parameters in the tag
+   (<<<SIGNATURE=...>>>) and the MEMBERS* / attribute / documentation tags are not modelled.  A per-event block WITHOUT signature tags expands as
+   before, whatever the oracle says. *)
+Theorem C16_ev_block_is_ref : forall sigs items body,
+  forallb ev_line_ok body = true -> ev_block_wf sigs items body = true ->
+  inner_events sigs items (map render_line body) None = Some (ref_ev_block sigs items body).
+Proof. exact ev_block_is_ref. Qed.
+Print Assumptions C16_ev_block_is_ref.
+
+Theorem C16_plain_ev_block_is_ref : forall sigs items body,
+  forallb (body_line_ok (keys_of KEvent)) body = true -> block_wf elem_table items body = true ->
+  inner_events sigs items (map render_line body) None = Some (ref_block elem_table items body).
+Proof. exact plain_ev_block_is_ref. Qed.
+Print Assumptions C16_plain_ev_block_is_ref.
+
+Example C16_paren_clean_nonvacuous :
+  paren_clean "def TriggerE(self, ) -> None: f(a, b) g(, x) h( , )" = "def TriggerE(self) -> None: f(a, b) g( x) h()"
+  /\ paren_clean "event = E()" = "event = E()" /\ paren_clean "x(a" = "x(a" /\ paren_clean "a(b(c, ) d) e( , f)" = "a(b(c) d) e(f)".   (* as re.sub answers *)
+Proof. repeat split; vm_compute; reflexivity. Qed.
+Print Assumptions C16_paren_clean_nonvacuous.
 
 Theorem C16_plain_msg_block_is_ref : forall ids items body,
   forallb (body_line_ok (keys_of KMsg)) body = true -> block_wf proto_table items body = true ->
